@@ -149,8 +149,12 @@ func strFormat(L *LState) int {
 func strGsub(L *LState) int {
 	str := L.CheckString(1)
 	pat := L.CheckString(2)
-	L.CheckTypes(3, LTString, LTTable, LTFunction)
+	L.CheckTypes(3, LTString, LTNumber, LTTable, LTFunction)
 	repl := L.CheckAny(3)
+	if n, ok := repl.(LNumber); ok {
+		// a number is a valid replacement: it is used as its string
+		repl = LString(n.String())
+	}
 	limit := L.OptInt(4, -1)
 	if L.Get(4) != LNil && limit <= 0 {
 		// an explicit maximum of zero or less: no substitution at all (-1 means "no limit" only as the default)
